@@ -168,6 +168,14 @@ oracle("used_value", ["val"], "val")
 contract("abs:ActiveTagValueProvider.use_value", trusted=True, pos_params=["value"], pure=True,
          ensures={"value": "result == used_value(value) and implies(value is Unknown, result is Unknown)"},
          doc="use_value(value): calls a lazy value function, keeps the Unknown placeholder (proved bounded; fix 0460e44)")
+oracle("lazy_value", ["val"], "val")
+contract("user:lazy_value", trusted=True, pos_params=[], pure=True, doc="a value function supplied by the user (A-user)")
+contract(T + "ActiveTagValueProvider.use_value", props=["C19"], params={"value": "any"}, result="any",
+         callsites={"value_func": "user:lazy_value"},
+         ensures={"the-unknown-placeholder-is-kept-not-called": "implies(value is Unknown, result is Unknown)",
+                  "a-plain-value-is-returned-as-it-is": "implies(not uf_bool('is_callable', value), result == value)"},
+         doc="Unknown is a class, hence callable: calling it would turn the 'category unknown' marker into an instance that no "
+             "caller recognises (fix 0460e44)")
 PROVS = "as_list(self.value_providers, 'any')"
 KNOWS = "(provider_value(%s[k], category) is not Unknown)" % PROVS
 contract(T + "CompositeActiveTagValueProvider.get", props=P,
